@@ -6,6 +6,7 @@ import SeqVerif.Model.RangeGo
 import SeqVerif.Model.EvalTreeWith
 import SeqVerif.Model.InverserArray
 import SeqVerif.Proofs.C03Posting
+import SeqVerif.Model.Bitmask
 import SeqVerif.Extracted.C02
 /-!
 # C02 - search returns exactly the matching documents, ordered, limited and counted
@@ -315,6 +316,49 @@ theorem c02_sealed_posting_is_narrow (cap : Nat) (f : Nat → Nat) (fields : Lis
     SV.C03.lidsBlocks_iterAsc_eq_filter cap f fields tid minL maxL h]
   exact ⟨rfl, rfl⟩
 
+/-! ## support code under the multi-fraction search: time pre-filter and result merge -/
+
+/-- **`util.Bitmask.HasBitsIn` answers "is a bit set in [left, right]"** for every byte layout - border bytes masked,
+every byte in between inspected (C14's byte-level model `SV.Bitmask.hasBitsIn`, theorem `hasBitsIn_iff`, imported
+read-only).  `seq.MIDsDistribution.IsIntersecting` - the per-minute "does this sealed fraction hold documents in
+[from, to]" pre-filter of `List.FilterInRange` - is this test on the minute buckets; that pruning by it never changes a
+search is C14's `c14_pruned_eq_unpruned`. -/
+theorem c02_hasBitsIn_exists (bin : List Nat) (hb : SV.Bitmask.WF bin) (l r : Nat) (hlr : l ≤ r) :
+    SV.Bitmask.hasBitsIn bin l r = true ↔ ∃ i, l ≤ i ∧ i ≤ r ∧ SV.Bitmask.bit bin i = true :=
+  SV.Bitmask.hasBitsIn_iff hb l r hlr
+
+/-- the merged result of several fractions must come in the total order on (mid, rid) - reversed *as a whole* for
+the default newest-first order: for equal mids the larger rid comes first when descending, and a cut to `limit`
+inside a group of equal timestamps keeps the members that are first in that order -/
+theorem c02_spec_tie_order (docs : List Doc) (q : Query) (from_ to : Nat) (limit : Nat) (wt : Bool) :
+    (Spec.search docs q from_ to false limit wt).ids.Pairwise
+        (fun a b => b.mid < a.mid ∨ (b.mid = a.mid ∧ b.rid < a.rid)) ∧
+    (Spec.search docs q from_ to true limit wt).ids.Pairwise
+        (fun a b => a.mid < b.mid ∨ (a.mid = b.mid ∧ a.rid < b.rid)) := by
+  constructor
+  · refine (Spec.search_ids_strict docs q from_ to false limit wt).imp ?_
+    rintro a b ⟨hle, hne⟩
+    simp only [orderLe, Bool.false_eq_true, if_false, ID.le] at hle
+    rcases a with ⟨ma, ra⟩; rcases b with ⟨mb, rb⟩
+    by_cases hm : mb = ma
+    · subst hm
+      have hr : rb ≠ ra := fun h => hne (by rw [h])
+      simp at hle
+      exact Or.inr ⟨rfl, by show rb < ra; omega⟩
+    · simp [hm] at hle
+      exact Or.inl hle
+  · refine (Spec.search_ids_strict docs q from_ to true limit wt).imp ?_
+    rintro a b ⟨hle, hne⟩
+    simp only [orderLe, if_true, ID.le] at hle
+    rcases a with ⟨ma, ra⟩; rcases b with ⟨mb, rb⟩
+    by_cases hm : ma = mb
+    · subst hm
+      have hr : ra ≠ rb := fun h => hne (by rw [h])
+      simp at hle
+      exact Or.inr ⟨rfl, by show ra < rb; omega⟩
+    · simp [hm] at hle
+      exact Or.inl hle
+
 /-! ## the inverser's pooled table -/
 
 /-- **The pooled `inversion` table is the mapping's position function because `getSlice` clears it**: for *any*
@@ -414,6 +458,14 @@ theorem c02_x_inverser :
     inverserFacts = ["getSlice: bytespool.AcquireLen", "getSlice: clear", "newInverser: buf, inversion := getSlice(size)",
       "newInverser: range values", "newInverser: inversion[v] = i + 1", "Inverse: if int(k) >= len(is.inversion)",
       "Inverse: return 0, false", "Inverse: return v, v > 0"] := by decide
+
+/-- `seq.MergeQPRs` sorts the merged ids with `sort.Sort` over `IDSources` (ascending) or `sort.Reverse` of the same
+order (regular = newest first), and `IDSources.Less` is `seq.Less`, the lexicographic order on (MID, RID) that
+`Spec.ID.lt` models: the descending order is the whole order reversed (see `c02_spec_tie_order`) -/
+theorem c02_x_merge_order :
+    mergeOrderFacts = ["IDSources.Less: Less(p[i].ID, p[j].ID)", "reverse: sort.Sort(dst.IDs)",
+      "regular: sort.Sort(sort.Reverse(dst.IDs))", "seq.Less: if a.MID == b.MID", "seq.Less: return a.RID < b.RID",
+      "seq.Less: return a.MID < b.MID"] := by decide
 
 /-! ## Non-vacuity -/
 
